@@ -567,7 +567,17 @@ func vfVExec(t *testing.T, src vfVSource, sc vfVScript) vfVResult {
 		}
 		h.d = &Dialer{iface: "vf0", state: h.st, mode: mode, ll: log.New(io.Discard, "", 0)}
 		h.d.DialFunc = h.dialFunc
-		ctx, cancel := context.WithCancel(context.Background())
+		// the context is cancelled the way Server.Serve's errgroup cancels it: in every other
+		// scenario WITH A CAUSE (the error of another task that failed first) — a cancellation is a
+		// cancellation whatever caused it
+		ctx, cancelCause := context.WithCancelCause(context.Background())
+		cancel := func() {
+			if sc.cancelAt%2 == 1 {
+				cancelCause(errors.New("scripted: another task of the server failed"))
+				return
+			}
+			cancelCause(nil)
+		}
 		h.cancel = cancel
 		h.start = time.Now()
 		h.last = h.start
